@@ -148,6 +148,7 @@ FeatTable == <<
   F("p.addtext.emptyfmt",  "p", {"r", "t"}, "all", {}),
   F("p.addtext.ws",        "p", {"i", "r", "t"}, "all", {}),
   F("p.addtext.empty",     "p", {"b", "r", "t"}, "none", {}),
+  F("p.footnote.torun",   "p", {"t"}, "none", {}),
   F("p.addbreak",          "p", {"br", "r"}, "all", {}),
   F("p.inlinemath",        "p", {"r", "t"}, "all", {}),
   F("p.struct.tabs",       "p", {"tabs"}, "all", {}),
@@ -309,6 +310,9 @@ CtorTable == <<
   C("c.nestedcellpara", "p", {"text", "emptytext"},      <<"tbl">>, 1, "ctor.nestedcellpara"),
   C("c.structpara",    "p", {"text", "emptytext"},       <<"p">>, 1, "ctor.para"),
   C("c.toc",           "p", {"text"},                    <<"p", "sdt">>, 1, "ctor.toc"),
+  C("c.toc.auto",      "p", {"text"},                    <<"sdt", "bms", "p", "bme">>, 3, "ctor.toc"),
+  C("c.toc.update",    "p", {"text"},                    <<"p", "sdt", "p">>, 1, "ctor.toc"),
+  C("c.list.multi",    "p", {"text"},                    <<"p", "p", "p">>, 3, "ctor.list"),
   C("c.math.inline",   "m", {},                          <<"math">>, 1, "ctor.math"),
   C("c.math.block",    "m", {},                          <<"math">>, 1, "ctor.math"),
   C("c.math.text",     "m", {},                          <<"math">>, 1, "ctor.math"),
@@ -321,9 +325,11 @@ CtorTable == <<
   C("c.tbl.3x1",       "t", {"tblcfg", "r2"},            <<"tbl">>, 1, "ctor.table"),
   C("c.tbl.3x2",       "t", {"tblcfg", "r2", "c2"},      <<"tbl">>, 1, "ctor.table"),
   C("c.tbl.3x3",       "t", {"tblcfg", "r2", "c2"},      <<"tbl">>, 1, "ctor.table"),
+  C("c.tbl.create",    "t", {"r2", "c2"},                <<"tbl">>, 1, "ctor.table"),
   C("c.img.png",       "i", {},                          <<"p">>, 1, "ctor.image"),
   C("c.img.jpeg",      "i", {},                          <<"p">>, 1, "ctor.image"),
-  C("c.img.gif",       "i", {},                          <<"p">>, 1, "ctor.image")
+  C("c.img.gif",       "i", {},                          <<"p">>, 1, "ctor.image"),
+  C("c.img.file",      "i", {},                          <<"p">>, 1, "ctor.image")
 >>
 
 FeatIds == {FeatTable[i].id : i \in DOMAIN FeatTable}
@@ -374,14 +380,14 @@ Model(b) ==
    hs   |-> IF SectTouching(b) THEN 1 ELSE 0]
 
 \* the serialiser and the intended reader are the identity on the abstract document;
-\* a lossy reader (no `case` for the groups / kinds in Lost) is the general form
+\* a lossy reader (no `case` for the groups in Lost, the body-level kinds in LostKinds) is the general form
 Ser(m) == m
 KeepEnts(E, Lost) ==
   LET kept == {k \in DOMAIN E : E[k].g \notin Lost}
       keep2 == {k \in kept : E[k].up = "" \/ E[k].up \in kept}
   IN [k \in keep2 |-> E[k]]
-Parse(d, Lost) ==
-  LET ks == SelectSeq(d.els, LAMBDA e : e.k \notin Lost)
+Parse(d, Lost, LostKinds) ==
+  LET ks == SelectSeq(d.els, LAMBDA e : e.k \notin LostKinds)
   IN [els  |-> [i \in 1..Len(ks) |-> [ks[i] EXCEPT !.ents = KeepEnts(ks[i].ents, Lost), !.src = 0]],
       sect |-> KeepEnts(d.sect, Lost), hs |-> d.hs]
 
